@@ -56,6 +56,8 @@ def build(ub, algebra_text, variant=None):
     for nm in ("is_true", "is_false"):
         ub.emit_fn(VS, nm, "stub", impl=IMPL_V, spec_key=f"ValueSummary::{nm}", cfg=cfg)
         ub.pin_assumed_fn(VS, nm, IMPL_V, "slice patterns (outside the dialect): contract assumed, text pinned")
+    # what each operator becomes in the BDD (closures over Context and the real BDD) is not under contract: pinned
+    ub.pin_assumed_fn(VS, "expr_to_guard", "impl GuardCtx", "closures over Context and the real BDD (outside the dialect): not under contract, text pinned")
     ub.emit_fn(VS, "to_guard", "verify", impl=IMPL_G, spec_key="ValueSummary::to_guard", cfg={"receivers": {}, "transform": ("R17", name_iters)})
     ub.emit_fn(VS, "import_into_guard", "verify", impl=IMPL_G, spec_key="ValueSummary::import_into_guard", cfg={"receivers": {}})
     ub.emit_fn(VS, "apply_ite", "verify", impl=IMPL_G, spec_key="ValueSummary::apply_ite", cfg={"receivers": {}, "transform": ("R8", carve_merge)})
